@@ -14,6 +14,8 @@ import LinVerif.Lemmas.C20Louds
 import LinVerif.Lemmas.C20LoudsGet
 import LinVerif.Lemmas.C20Wire
 import LinVerif.Lemmas.C20IterMachine
+import LinVerif.Lemmas.C20SeekMachine
+import LinVerif.Lemmas.C20Reuse
 import LinVerif.Model.Louds
 import LinVerif.Model.TrieBucket
 import LinVerif.Generated.C20
@@ -353,6 +355,18 @@ theorem unmarshal_marshal_encode (t : Node) (hb : WireBounded (toWire (encode t)
 theorem marshal_size (w : Wire) (h : WireOK w) : (marshal w).length = marshalSize w :=
   marshal_length w h
 
+/-- **a build is independent of the builder's previous builds**: whatever the re-used buffers of
+the builder (`hasChildVec`, `loudsVec`, `prefixVec`, `suffixVec` bit buffers and rank tables) held
+before — `prev` is arbitrary, e.g. a larger dictionary — `Write` serialises exactly what a fresh
+builder would: `bitVector.Init` zeroes the whole buffer, so `selectVector.Init`, which ranges over
+the whole buffer, sees no stale bits (`numOnes`, select table), and only the first
+`numBits/blockSize + 1` rank entries are written -/
+theorem build_independent_of_previous_builds (prev : TrieReuse.Bufs) (t : Node) :
+    TrieReuse.toWireReuse prev (encode t) = toWire (encode t) ∧
+    marshal (TrieReuse.toWireReuse prev (encode t)) = marshal (toWire (encode t)) := by
+  have := toWireReuse_eq prev t
+  exact ⟨this, by rw [this]⟩
+
 end Wire
 
 /-! ### layer 2: rank / select on bit vectors and the LOUDS position formulas -/
@@ -428,10 +442,9 @@ level order (node ids) and `flatItems t` the labels in vector order,
 * at a label without child, `valuePos(pos)` indexes exactly that label's value.
 These compose (with the label scan, `nodeSize`, and the prefix/suffix lookup through the
 hasPrefix/hasSuffix rank vectors) into `louds_get_refines_tree` and (with the stack machine) into
-`louds_iter_refines_tree` below. What is NOT proved (tied by the correspondence ops `sseek`,
-`sprefix`, `sriter` instead): `Seek(k)` for a non-empty `k` and the prefix iterator with a
-non-empty prefix over the vectors (`LoudsIter.seekLoop`, `searchGreaterThan`'s binary search,
-`moveToRightMostKey`), and backward iteration (`Prev` / `SeekToLast`). -/
+`louds_iter_refines_tree` below. `louds_seek_refines_tree`
+and `louds_prefix_refines_tree` close `Seek` and prefix iteration. What is NOT proved (tied by the
+correspondence op `sriter` instead): backward iteration (`Prev` / `SeekToLast`). -/
 theorem louds_refines_tree_partial {kvs : List KV} {t : Node} (h : Buildable kvs) (ht : build kvs = some t) :
     (∀ n, n < (bfs t).length → firstLabelPos (encode t) n = offset t n) ∧
     (∀ pos l c, (flatItems t)[pos]? = some (.child l c) → (bfs t)[childNodeID (encode t) pos]? = some c) ∧
@@ -485,6 +498,45 @@ theorem louds_prefix_nil_refines_tree {kvs : List KV} {t : Node} (step : Bool) (
   obtain ⟨t', ht', hit, hwf, _⟩ := build_spec h
   rw [ht] at ht'; cases ht'
   rw [prefixAll_nil_eq_iter hwf step, hit]
+
+/-- **LOUDS `Seek` = tree `Seek`**: `Iterator.Seek(k)` of the stack machine over the vectors (the
+per-level loop of `seek` with the node-prefix comparison, `labelVector.Search`,
+`SearchGreaterThan`'s binary search + `moveToLeftInNextSubTrie`, the `moveToRightMostKey` fallback
+and the final conditional `Next`) returns the same flag and enumerates, from its landing position
+on, exactly what the tree-level `seek` does — every buildable key list, every probe, both variants
+of the final step -/
+theorem louds_seek_refines_tree {kvs : List KV} {t : Node} (step : Bool) (h : Buildable kvs)
+    (ht : build kvs = some t) (k : Key) : LoudsIter.seekAll step (encode t) k = seekCur step t k := by
+  obtain ⟨t', ht', _, hwf, _⟩ := build_spec h
+  rw [ht] at ht'; cases ht'
+  exact seekAll_eq hwf step k
+
+/-- **LOUDS prefix iteration = tree prefix iteration** (`NewPrefixIterator(p)` and its
+`Valid()/Key()/Value()/Next()` loop over the vectors), every prefix -/
+theorem louds_prefix_refines_tree {kvs : List KV} {t : Node} (step : Bool) (h : Buildable kvs)
+    (ht : build kvs = some t) (p : Key) : LoudsIter.prefixAll step (encode t) p = prefixIter step t p := by
+  obtain ⟨t', ht', _, hwf, _⟩ := build_spec h
+  rw [ht] at ht'; cases ht'
+  exact prefixAll_eq hwf step p
+
+/-- end to end on the vectors: `Seek(k)` (with the conditional `Next` of today's code) positions
+the iterator on the lower bound of `k` in the sorted map -/
+theorem louds_seek_eq_lowerBound {kvs : List KV} {t : Node} (h : Buildable kvs) (ht : build kvs = some t)
+    (k : Key) : (LoudsIter.seekAll true (encode t) k).2 = lowerBound k kvs := by
+  rw [louds_seek_refines_tree true h ht k]
+  simp only [seekCur, if_true]
+  exact seek_eq_lowerBound h ht k
+
+/-- … and for whichever variant of `Seek` /repo's source has now -/
+theorem louds_seek_current_source {kvs : List KV} {t : Node} (h : Buildable kvs) (ht : build kvs = some t)
+    (k : Key) : LoudsIter.seekAll Generated.C20.seekStepsToLowerBound (encode t) k =
+      seekCur Generated.C20.seekStepsToLowerBound t k :=
+  louds_seek_refines_tree _ h ht k
+
+/-- end to end on the vectors: prefix enumeration = the pairs of the sorted map with the prefix -/
+theorem louds_prefix_eq_filter {kvs : List KV} {t : Node} (step : Bool) (h : Buildable kvs)
+    (ht : build kvs = some t) (p : Key) : LoudsIter.prefixAll step (encode t) p = withPrefix p kvs := by
+  rw [louds_prefix_refines_tree step h ht p, prefix_iter_eq_filter step h ht p]
 
 /-- the encoded label / hasChild / louds / value vectors are the per-node rows concatenated in
 level order (what `trie.Init` / `bitVector.Init` do with the builder's levels) -/
@@ -642,6 +694,15 @@ scans and the exact lookup -/
 theorem gen_like_calls : Generated.C20.likeCalls =
     ["strings.HasPrefix", "strings.HasSuffix", "strutil.String2ByteSlice", "s.findValuesByLike", "len",
      "s.findValuesByLike", "s.findValuesByLike", "len", "s.findValuesByLike", "s.findValue"] := rfl
+
+/-- re-used buffers: `bitVector.Init` zeroes the whole `v.bits` and `selectVector.Init` ranges over the
+whole `v.bits` (what `TrieReuse.bufInit` / `selInitReuse` model); `Reset` keeps the builder's
+vectors, `initWriteContext` re-initialises all four -/
+theorem gen_reuse :
+    Generated.C20.bitInitZeroRange = "v.bits" ∧ Generated.C20.selectInitRange = "v.bits" ∧
+    Generated.C20.resetCalls = ["level.Reset", "append"] ∧
+    Generated.C20.initWriteContextCalls = ["hasChildVec.init", "loudsVec.Init", "prefixVec.Init", "suffixVec.Init"] :=
+  ⟨rfl, rfl, rfl, rfl⟩
 
 end Ties
 
